@@ -7,12 +7,15 @@ TRUSTED = [
     "Coq 8.16.1 kernel (coqc), vm_compute for case evaluation; no native_compute",
     "hand-written model props/C04/coq/Model.v of docsStream.batchLoader/calcChunkSize, doFetch framing, "
     "Fetcher.FetchDocs/sortIDs/groupIDsByFraction/fetchDocsAsync, Info.IsIntersecting (+ distribution, bytewise "
-    "HasBitsIn), sealed findLIDs/LessOrEqual/BinSearchInRange, active ID->position map "
+    "HasBitsIn), sealed findLIDs/LessOrEqual/BinSearchInRange/getDocPosByLIDs, active GetDocPos with its snapshot "
+    "guard, PackDocPos/Unpack, GroupDocsOffsets, IndexFetch, ReadDocs/extractDocsFromBlockFunc "
     "(tied to /repo by the correspondence run, not verified code)",
     "Go harness harness/cmd/hC04 (scenario/ID generators, in-process gRPC stream, byte-exact mapping of returned "
     "bytes to document numbers inside the store child) and harness/internal/{storectl,fracbuild}",
-    "DocPos packing, GroupDocsOffsets, DocsReader.ReadDocs, sealed position blocks, zstd: NOT modelled, "
-    "covered end to end by the spec checker on the real output only (test, not proof)",
+    "export files storeapi/export_verif_c04.go and frac/export_verif_c04.go (state builders for the unit-level classes)",
+    "zstd and the docs cache (key = uint32 of the block offset) are NOT modelled; the end-to-end cases run the "
+    "position layer on document descriptors in the harness's block layout (one block per bulk), real bytes and "
+    "real positions only in the unit-level classes",
 ]
 ASSUME = [
     "time-range/occupancy pruning is sound for stored documents (hypothesis info_sound B of thm C04_fetch_exact; "
@@ -21,6 +24,9 @@ ASSUME = [
     "the sealed ID table is the descending sort of the fraction's IDs behind the (MaxUint64,MaxUint64) sentinel and "
     "MinBlockIDs[b] is the last ID of block b (sealing is C03/C08)",
     "IDs inside one request are distinct and an ID is stored in at most one fraction (the property's quantifier)",
+    "a decoded doc block has at most 2^30 bytes and a docs file at most 2^32 blocks (layout_wf; the writer panics "
+    "beyond 30-bit offsets)",
+    "the store is quiescent during a request; the active provider's snapshot guard is stated and tested at unit level",
 ]
 RULE = ("real stores (1-4 fractions, sealed + at most one active, optional restart, with/without sorted docs; some "
         "sealed fractions span several ID blocks of 4096) x requests: present / absent / mixed in any order, absent IDs "
@@ -29,7 +35,11 @@ RULE = ("real stores (1-4 fractions, sealed + at most one active, optional resta
         "64 KiB so that chunks shrink, right/wrong/unknown fraction hints, repeated IDs, the same ID in two fractions; "
         "scenario kind 'recent' (timestamps of the last 20 minutes, the only wall-clock dependent inputs) so that the "
         "occupancy-map window holds the documents, with the regression class mid-above-int64 (stored IDs + an ID whose "
-        "MID >= 2^63); thorough: requests of 20k and 100k IDs; plus calcChunkSize on generated size vectors. non-trivial = request mixes present and absent IDs or needs more than one batch "
+        "MID >= 2^63); thorough: requests of 20k and 100k IDs; plus unit-level classes on generated inputs: calcChunkSize, "
+        "PackDocPos/Unpack (offsets around 2^30, block indices up to 2^32-1), GroupDocsOffsets, IndexFetch over a real "
+        "DocsReader on files of 1-4 packed/compressed blocks (permuted block table, nil entries, block index past the "
+        "table), activeFetchIndex.GetDocPos (snapshot of k blocks, positions in blocks < k, = k, > k), getDocPosByLIDs "
+        "(one and several position blocks, LIDs around the block border and past the table). non-trivial = request mixes present and absent IDs or needs more than one batch "
         "(calc: 0 < found bytes < number of IDs); distinct by input")
 
 
